@@ -470,7 +470,7 @@ pub fn run(ctx: &Ctx) {
         } else {
             run_case(ctx, case);
         }
-        if ctx.rep.nviol.load(Ordering::Relaxed) >= 6 {
+        if ctx.rep.nviol.load(Ordering::Relaxed) >= 2 {
             break;
         }
     }
